@@ -5,7 +5,8 @@
 (*   body  B ::= x | y | B + B | B - B | B * B | -B | c*B | B + c | A @ B  *)
 (*             | mprod(B, Q)            (all of the base shape N)          *)
 (*   head  H ::= id | slice | cat(., y) | pad | kron(., y) | diag | full   *)
-(*             | bcast: . + w with w one order lower (broadcast)           *)
+(*             | bcast / bmul / bsub: . + w, . * w, . - w with w one order *)
+(*               lower (broadcast)                                          *)
 (*   red   R ::= sum | sum over mode 0 then sum | dot with a constant      *)
 (*             | norm | norm^2 | one entry | apply_mask | bilinear form    *)
 (*             | weighted sum of full()                                    *)
@@ -35,9 +36,9 @@ Bodies(n) == IF n = 0 THEN {Leaf("x"), Leaf("y")}
                   T \cup {Un(o, a) : o \in {"neg", "scal", "sscal", "adds", "matvec", "vecmat", "mprod"}, a \in T}
                     \cup {Bin(o, a, b) : o \in {"add", "sub", "mul"}, a \in T, b \in Bodies(0)}
 
-Heads == {"id", "slice", "ell", "rslice", "cat", "pad", "kron", "diag", "full", "bcast"}
+Heads == {"id", "slice", "ell", "rslice", "cat", "pad", "kron", "diag", "full", "bcast", "bmul", "bsub"}
 \* slice: integer on the first mode; ell: t[...] (documented as a copy); rslice: t[0:n-1, ...] (range slice with Ellipsis);
-\* bcast: B + w with w of order d-1 (broadcast)
+\* bcast / bmul / bsub: B + w, B * w, B - w with w of order d-1 (broadcast over the missing leading mode: each operator has its own branch)
 Reds == {"sum", "sum0", "dot", "norm", "norm2", "item", "mask", "bilinear", "wsum"}
 
 \* typing: which reducer applies to which head's result
@@ -71,8 +72,8 @@ Init == /\ s \in SHAPES /\ body \in Bodies(DEPTH) /\ head \in Heads /\ red \in R
         /\ (track \in {"xl", "xr", "xw2"} => Len(s.N) >= 2)
         /\ (track = "y" => Uses(body, "y") \/ head \in {"cat", "kron"})
         \* operands of different order tracked together (watch_list / grad_list over a list of tensors)
-        /\ (track = "wx" => head = "bcast" /\ Uses(body, "x"))
-        /\ (head = "bcast" => Len(s.N) >= 2)
+        /\ (track = "wx" => head \in {"bcast", "bmul", "bsub"} /\ Uses(body, "x"))
+        /\ (head \in {"bcast", "bmul", "bsub"} => Len(s.N) >= 2)
 Spec == Init /\ [][FALSE]_vars
 
 WellTyped == ReducerOK(head, red)
